@@ -341,4 +341,50 @@ theorem h2_active_no_expiry (ka : Option Nat) (ops : List Op2) :
     (run2 (init2 ka) ops).c.st = .active → (run2 (init2 ka) ops).c.expireAt = none :=
   (inv2_run _ ops (inv2_init ka)).expiry_only_idle
 
+/-! ## the network stream of an HTTP/1.1 connection (C06, C17) -/
+
+/-- out of service only with the network stream closed -/
+structure InvSock (g : G1) : Prop where
+  closed_closed : g.c.st = .closed → 0 < g.c.sockCloses
+
+theorem sock_step (g : G1) (op : Op1) (h : InvSock g) :
+    InvSock (step1 g op) ∧ g.c.sockCloses ≤ (step1 g op).c.sockCloses := by
+  obtain ⟨h1⟩ := h
+  cases op <;> simp only [step1, Gen.h1Gate, Gen.h1Aclose, Gen.h1ResponseClosed] <;>
+    (refine ⟨⟨?_⟩, ?_⟩ <;> grind)
+
+theorem sock_run (g : G1) (ops : List Op1) (h : InvSock g) :
+    InvSock (run1 g ops) ∧ g.c.sockCloses ≤ (run1 g ops).c.sockCloses := by
+  induction ops generalizing g with
+  | nil => exact ⟨by simpa [run1] using h, by simp [run1]⟩
+  | cons o os ih =>
+    obtain ⟨a, b⟩ := sock_step g o h
+    obtain ⟨c, d⟩ := ih _ a
+    exact ⟨c, by simp only [run1, List.foldl_cons] at d ⊢; omega⟩
+
+/-- **h1_out_of_service_means_stream_closed** (C06) - for every sequence of operations: an HTTP/1.1 connection that reports itself closed
+(the pool then drops it without closing it) has had its network stream closed; with the source's `_response_closed` / `aclose` / gate
+as they are now (regenerated). -/
+theorem h1_out_of_service_means_stream_closed (ka : Option Nat) (ops : List Op1) :
+    Gen.h1IsClosed (run1 (init1 ka) ops).c = true → 0 < (run1 (init1 ka) ops).c.sockCloses := by
+  intro hc
+  have h := (sock_run (init1 ka) ops ⟨by simp [init1]⟩).1
+  simp only [Gen.h1IsClosed] at hc
+  exact h.closed_closed (by simpa using hc)
+
+/-- **h1_unfinished_exchange_closes_stream** (C06, C17) - an exchange that ends with either h11 side not DONE - a switched protocol
+(101, CONNECT 2xx: `their_state` is SWITCHED_PROTOCOL), `Connection: close`, an error, an abandoned body - closes the network stream in
+`_response_closed` itself and takes the connection out of service: it is never offered to the pool again and never left open. -/
+theorem h1_unfinished_exchange_closes_stream (g : G1) (now : Nat) (hopen : g.exchangeOpen = true)
+    (hnd : ¬ (g.c.ourDone = true ∧ g.c.theirDone = true)) :
+    let g' := step1 g (.responseClosed now)
+    g'.c.sockCloses = g.c.sockCloses + 1 ∧ g'.c.st = .closed ∧ Gen.h1IsAvailable g'.c = false ∧ Gen.h1IsIdle g'.c = false := by
+  simp only [step1, Gen.h1ResponseClosed, Gen.h1Aclose, Gen.h1IsAvailable, Gen.h1IsIdle]
+  grind
+
+/-! non-vacuity: a request whose response switches protocols, closed by the caller -/
+example : (run1 (init1 (some 5)) [.request, .progress true false, .responseClosed 3]).c.sockCloses = 1 ∧
+    (run1 (init1 (some 5)) [.request, .progress true false, .responseClosed 3]).c.st = .closed := by decide
+
+
 end Httpcore.LifeProps
